@@ -109,6 +109,15 @@ func (fr *Frame) execInstr(in ssa.Instruction) {
 		ref := x.newRef(st, "new_"+n.Name())
 		p := &Value{T: n.Type(), C: []Term{ref}}
 		x.Store(st, x.ptrOf(p), e.zeroValue(el))
+		if at, ok := el.Underlying().(*types.Array); ok && !isGhostType(el) {
+			if l := e.layout(at.Elem()); len(l) == 1 && l[0].Sort == SInt {
+				// a zeroed array object (also what make([]T, const) lowers to)
+				if st.content == nil {
+					st.content = map[string]*contentRec{}
+				}
+				st.content[ref.S] = &contentRec{off: IntLit(0), ln: IntLit(at.Len()), seq: &SeqV{Len: IntLit(at.Len()), At: func(i Term) Term { return IntLit(0) }}}
+			}
+		}
 		fr.set(n, p)
 	case *ssa.Store:
 		addr := fr.val(n.Addr)
@@ -161,7 +170,7 @@ func (fr *Frame) execInstr(in ssa.Instruction) {
 			fr.set(n, out)
 		case *types.Basic: // string
 			fr.safety("bounds", And(Le(IntLit(0), i), Lt(i, xv.C[2])), "string-index")
-			fr.set(n, fr.byteRead(Select(xv.C[0], Add(xv.C[1], i)), n.Type()))
+			fr.set(n, fr.byteRead(Select(xv.C[0], Add(xv.C[1], i.Sealed())), n.Type()))
 		default:
 			fr.unsupported("Index on %v", xv.T)
 		}
@@ -170,7 +179,7 @@ func (fr *Frame) execInstr(in ssa.Instruction) {
 		if isString(xv.T) {
 			i := fr.val(n.Index).term()
 			fr.safety("bounds", And(Le(IntLit(0), i), Lt(i, xv.C[2])), "string-index")
-			fr.set(n, fr.byteRead(Select(xv.C[0], Add(xv.C[1], i)), n.Type()))
+			fr.set(n, fr.byteRead(Select(xv.C[0], Add(xv.C[1], i.Sealed())), n.Type()))
 			return
 		}
 		fr.set(n, fr.mapLookup(n, xv, fr.val(n.Index)))
@@ -338,7 +347,7 @@ func (fr *Frame) indexAddr(n *ssa.IndexAddr) {
 	switch u := xv.T.Underlying().(type) {
 	case *types.Slice:
 		fr.safety("bounds", And(Le(IntLit(0), i), Lt(i, xv.C[2])), "slice-index")
-		p := &Ptr{Heap: xv.C[0], Elem: true, RootT: u.Elem(), Idx: x.ctx.Name("ix", Add(xv.C[1], i))}
+		p := &Ptr{Heap: xv.C[0], Elem: true, RootT: u.Elem(), Idx: x.ctx.Name("ix", Add(xv.C[1], i.Sealed()))}
 		fr.set(n, &Value{T: n.Type(), C: []Term{IntLit(0)}, P: p})
 	case *types.Pointer:
 		at := u.Elem().Underlying().(*types.Array)
